@@ -58,7 +58,7 @@ def fault_scripts(rnd, quick):
         mb = mbase(rnd, head)
         for op in ops:
             for k in range(1, n + 5):
-                for kind in (1, 2, 4):
+                for kind in (1, 2, 4, 5):
                     # the instance lives on after a reported I/O error: what it then says about the medium must be as true as
                     # what a fresh instance says (validated before, so that nothing remembered from then can be reused)
                     sc += mb + [head, 'store %d %s' % (n, ' '.join(map(str, img))), 'validate',
@@ -68,7 +68,7 @@ def fault_scripts(rnd, quick):
         sc2 = []
         for a in (place, place + width, place + width + n - 1):
             for k in range(1, 2 * (n + 3) + 2):
-                for kind in (1, 4):
+                for kind in (1, 4, 5):
                     sc2 += mb + [head, 'store %d %s' % (n, ' '.join(map(str, img))), 'corrupt %d %d' % (a, 170),
                                  'fault %d %d' % (k, kind), 'validate', 'validate', 'reopen', 'validate']
         yield sc + sc2
